@@ -302,6 +302,30 @@ def tree_check(work, pid, oracle, level_text, gen_opts=None, need=None, cases_fn
         run_items = [it for it in run_items if prefilter(it)]
     k3.run_all(run_items, (lambda it: cases_fn(ck, it, n_in)) if cases_fn else (lambda it: std_cases(ck, it, n_in, maxlen=maxlen)))
     probs = report_build_problems(ck, all_items + citems, pid)
+    # emitted parsers the translator cannot read (the tie is broken for them): the properties whose direct oracle needs
+    # the implementation's output only still search these parsers for a failing input
+    impl_only_failures = []
+    impl_only_runs = 0
+    if pid in ('C01', 'C02', 'C03'):
+        for it in (all_items + citems):
+            pbi = it.get('pb_impl')
+            if pbi is None or not pbi.rustc_ok or len(impl_only_failures) >= 3:
+                continue
+            try:
+                cs = cases_fn(ck, it, n_in) if cases_fn else std_cases(ck, it, n_in, maxlen=maxlen)
+                for case, impl in k3.run_impl_only(it, cs):
+                    impl_only_runs += 1
+                    it['pb'] = pbi
+                    try:
+                        o = oracle(it, case, impl, {})
+                    finally:
+                        del it['pb']
+                    if o is not None:
+                        impl_only_failures.append({'grammar': it['text'], 'entry': case[0], 'tokens': case[1], 'bits': case[2], 'what': o,
+                                                   'note': 'found on the compiled parser alone: the emitted code is outside the command language (%s)' % it.get('terror')})
+                        break
+            except Exception as e:  # noqa
+                lv.log('implementation-only run failed: %r' % e)
     # optionally the analysis tie (K2) on the very grammars whose parsers are run: recursion classes, binding powers, sets
     k2dis = []
     k2n = 0
@@ -382,6 +406,7 @@ def tree_check(work, pid, oracle, level_text, gen_opts=None, need=None, cases_fn
     kf.rerun_witnesses(work, oracle, ck)
 
     # ---- verdict
+    failures = impl_only_failures + failures
     shown = 0
     for f in failures:
         if shown < 3:
@@ -432,6 +457,7 @@ def tree_check(work, pid, oracle, level_text, gen_opts=None, need=None, cases_fn
         'disagreements_checked': evals + len(hs),
         'k1': k1stats, 'k1_histories': len(hs), 'k1_disagreements': len(k1dis),
         'k3_disagreements': len(disagreements), 'translator_or_build_problems': len(probs),
+        'implementation_only_runs_on_untranslatable_parsers': impl_only_runs,
         'parsers_not_compiling_(C11_business)': len([1 for it in all_items + citems if 'pb' in it and not it['pb'].rustc_ok]),
         'grammars_generated': len(all_items), 'grammars_accepted_and_run': len(run_items),
         'feature_histogram': dict(feat), 'input_size_histogram': {str(k): v for k, v in sorted(sizes.items())},
